@@ -1,4 +1,161 @@
-import EE.Model.Program
+import EE.Model.Render
+import EE.Lemmas.Tie
+/-! # C18 — describe() renders each node with exactly the descriptor registered for it
+
+`describe dreg dinv t`: `dreg` is the descriptor registry (key ↦ descriptor id, most recent
+first), `dinv` what each registered descriptor computes — arbitrary, so the theorems hold for every
+user-supplied descriptor. `describe` is a total function into `Text`: it has no failure outcome
+at all (no `Res`), which is the model-level content of "returns without panicking". -/
 namespace EE.Props.C18
-theorem placeholder : True := trivial
+open EE
+
+/-- Registering a descriptor under key `k` affects lookups of `k` only. -/
+theorem set_get (r : DReg) (k k' : DKey) (d : Nat) :
+    dlookup k' (r.set k d) = if k = k' then some d else dlookup k' r := by
+  simp [DReg.set, dlookup]
+
+/-- The last registration for a key wins. -/
+theorem last_wins (r : DReg) (k : DKey) (d d' : Nat) : dlookup k ((r.set k d).set k d') = some d' := by
+  simp [DReg.set, dlookup]
+
+/-- The key a node is looked up under: its kind and, for operators, calls and references, its name. -/
+def keyOf : AST → Option DKey
+  | .unary op _ => some (.unary op)
+  | .binary op _ _ => some (.binary op)
+  | .postfix _ op => some (.postfix op)
+  | .ternary .. => some .ternary
+  | .ref n => some (.reference n)
+  | .call n _ => some (.function n)
+  | .list _ => some .list
+  | .map _ => some .map
+  | .stmt _ => some .chain
+  | .lit _ => none
+  | .none => none
+
+/-- The arguments a node's descriptor receives: its operator/name and its children's descriptions. -/
+def argsOf (dreg : DReg) (dinv : DInv) : AST → List Text
+  | .unary op r => [op, describe dreg dinv r]
+  | .binary op l r => [op, describe dreg dinv l, describe dreg dinv r]
+  | .postfix l op => [describe dreg dinv l, op]
+  | .ternary c a b => [describe dreg dinv c, describe dreg dinv a, describe dreg dinv b]
+  | .ref n => [n]
+  | .call n args => n :: describeList dreg dinv args
+  | .list xs => describeList dreg dinv xs
+  | .map kvs => describeMap dreg dinv kvs
+  | .stmt xs => describeList dreg dinv xs
+  | _ => []
+
+/-- A node with a registered descriptor is rendered by exactly that descriptor, applied to the
+node's name and the descriptions of its children. -/
+theorem uses (dreg : DReg) (dinv : DInv) (t : AST) (k : DKey) (d : Nat)
+    (hk : keyOf t = some k) (hd : dlookup k dreg = some d) :
+    describe dreg dinv t = dinv d (argsOf dreg dinv t) := by
+  cases t <;> simp [keyOf] at hk <;> subst hk <;> simp [describe, applyDesc, hd, argsOf]
+
+/-- A node without a registered descriptor gets the documented default rendering. -/
+theorem default (dreg : DReg) (dinv : DInv) (t : AST) (k : DKey)
+    (hk : keyOf t = some k) (hd : dlookup k dreg = none) :
+    describe dreg dinv t = defaultDesc k (argsOf dreg dinv t) := by
+  cases t <;> simp [keyOf] at hk <;> subst hk <;> simp [describe, applyDesc, hd, argsOf]
+
+/-- Literals are rendered as `expr()` renders them, whatever is registered. -/
+theorem literal (dreg : DReg) (dinv : DInv) (l : Lit) : describe dreg dinv (.lit l) = litText l := by
+  simp [describe]
+
+mutual
+/-- All keys a tree's nodes are looked up under. -/
+def keysOf : AST → List DKey
+  | .unary op r => .unary op :: keysOf r
+  | .binary op l r => .binary op :: (keysOf l ++ keysOf r)
+  | .postfix l op => .postfix op :: keysOf l
+  | .ternary c a b => .ternary :: (keysOf c ++ (keysOf a ++ keysOf b))
+  | .ref n => [.reference n]
+  | .call n args => .function n :: keysOfList args
+  | .list xs => .list :: keysOfList xs
+  | .map kvs => .map :: keysOfMap kvs
+  | .stmt xs => .chain :: keysOfList xs
+  | .lit _ => []
+  | .none => []
+def keysOfList : List AST → List DKey
+  | [] => []
+  | a :: as => keysOf a ++ keysOfList as
+def keysOfMap : List (AST × AST) → List DKey
+  | [] => []
+  | (k, v) :: r => keysOf k ++ (keysOf v ++ keysOfMap r)
+end
+
+theorem applyDesc_frame (dreg : DReg) (dinv : DInv) (k k' : DKey) (d : Nat) (args : List Text) (h : k' ≠ k) :
+    applyDesc (dreg.set k d) dinv k' args = applyDesc dreg dinv k' args := by
+  simp [applyDesc, set_get, Ne.symm h]
+
+mutual
+/-- Registering a descriptor for one kind or name never changes how a tree that contains no node
+of that kind and name is rendered. -/
+theorem frame (dreg : DReg) (dinv : DInv) (k : DKey) (d : Nat) :
+    ∀ t : AST, k ∉ keysOf t → describe (dreg.set k d) dinv t = describe dreg dinv t
+  | .lit _, _ => by simp [describe]
+  | .none, _ => by simp [describe]
+  | .ref n, h => by
+      simp [keysOf] at h
+      simp [describe, applyDesc_frame dreg dinv k _ d _ (Ne.symm h)]
+  | .unary op r, h => by
+      simp [keysOf] at h
+      simp [describe, frame dreg dinv k d r h.2, applyDesc_frame dreg dinv k _ d _ (Ne.symm h.1)]
+  | .postfix l op, h => by
+      simp [keysOf] at h
+      simp [describe, frame dreg dinv k d l h.2, applyDesc_frame dreg dinv k _ d _ (Ne.symm h.1)]
+  | .binary op l r, h => by
+      simp [keysOf] at h
+      simp [describe, frame dreg dinv k d l h.2.1, frame dreg dinv k d r h.2.2,
+        applyDesc_frame dreg dinv k _ d _ (Ne.symm h.1)]
+  | .ternary c a b, h => by
+      simp [keysOf] at h
+      simp [describe, frame dreg dinv k d c h.2.1, frame dreg dinv k d a h.2.2.1, frame dreg dinv k d b h.2.2.2,
+        applyDesc_frame dreg dinv k _ d _ (Ne.symm h.1)]
+  | .call n args, h => by
+      simp [keysOf] at h
+      simp [describe, frameList dreg dinv k d args h.2, applyDesc_frame dreg dinv k _ d _ (Ne.symm h.1)]
+  | .list xs, h => by
+      simp [keysOf] at h
+      simp [describe, frameList dreg dinv k d xs h.2, applyDesc_frame dreg dinv k _ d _ (Ne.symm h.1)]
+  | .stmt xs, h => by
+      simp [keysOf] at h
+      simp [describe, frameList dreg dinv k d xs h.2, applyDesc_frame dreg dinv k _ d _ (Ne.symm h.1)]
+  | .map kvs, h => by
+      simp [keysOf] at h
+      simp [describe, frameMap dreg dinv k d kvs h.2, applyDesc_frame dreg dinv k _ d _ (Ne.symm h.1)]
+theorem frameList (dreg : DReg) (dinv : DInv) (k : DKey) (d : Nat) :
+    ∀ ts : List AST, k ∉ keysOfList ts → describeList (dreg.set k d) dinv ts = describeList dreg dinv ts
+  | [], _ => by simp [describeList]
+  | a :: as, h => by
+      simp [keysOfList] at h
+      simp [describeList, frame dreg dinv k d a h.1, frameList dreg dinv k d as h.2]
+theorem frameMap (dreg : DReg) (dinv : DInv) (k : DKey) (d : Nat) :
+    ∀ ts : List (AST × AST), k ∉ keysOfMap ts → describeMap (dreg.set k d) dinv ts = describeMap dreg dinv ts
+  | [], _ => by simp [describeMap]
+  | (a, b) :: r, h => by
+      simp [keysOfMap] at h
+      simp [describeMap, frame dreg dinv k d a h.1, frame dreg dinv k d b h.2.1, frameMap dreg dinv k d r h.2.2]
+end
+
+/-- Keys of different kinds, or of the same kind with different names, are different keys:
+a registration for one can never be found under the other. -/
+theorem keys_distinct (a b : Name) (h : a ≠ b) :
+    DKey.unary a ≠ DKey.unary b ∧ DKey.binary a ≠ DKey.binary b ∧ DKey.postfix a ≠ DKey.postfix b ∧
+    DKey.function a ≠ DKey.function b ∧ DKey.reference a ≠ DKey.reference b ∧
+    DKey.unary a ≠ DKey.binary a ∧ DKey.unary a ≠ DKey.postfix a ∧ DKey.binary a ≠ DKey.postfix a ∧
+    DKey.function a ≠ DKey.reference a := by
+  simp [h]
+
+/-- Tie to the source: every getter builds the key constructor its setter builds (regenerated fact). -/
+theorem desc_keys_match : ∀ p ∈ Gen.descKeys, p.2.1 = p.2.2.2.1 ∧ p.2.2.1 = p.2.2.2.2 := EE.Tie.desc_keys_match
+
+/-! Non-vacuity: a configuration where a binary descriptor is registered and used, and a sibling
+kind keeps its default. -/
+example :
+    let dreg : DReg := DReg.set [] (DKey.binary ['+']) 0
+    let dinv : DInv := fun _ args => ['<'] ++ joinWith ['|'] args ++ ['>']
+    describe dreg dinv (.binary ['+'] (.ref ['a']) (.unary ['-'] (.ref ['b'])))
+      = "<+|a|-b>".toList := by decide
+
 end EE.Props.C18
